@@ -61,6 +61,22 @@ def run_tape(mod, cfg, tape):
     snap = pin.snapshot_globals()
     try:
         out = mod.run_one(tape, cfg)
+    except pin.HarnessError:
+        raise
+    except Exception as e:  # noqa: BLE001
+        # An exception that escaped a check.  If it was raised by code of the repository under
+        # test (innermost frame in /repo) the run is a violation with a replay file, not a harness
+        # error: a check must say VIOLATION when dask breaks in a way it did not anticipate.
+        tb = e.__traceback__
+        while tb is not None and tb.tb_next is not None:
+            tb = tb.tb_next
+        fn = tb.tb_frame.f_code.co_filename if tb is not None else ""
+        if not os.path.abspath(fn).startswith(os.path.abspath(pin.REPO) + os.sep):
+            raise
+        out = Outcome()
+        out.violate("dask_raised_unexpectedly",
+                    f"{type(e).__name__} at {os.path.relpath(fn, pin.REPO)}:{tb.tb_lineno}: {str(e)[:300]}",
+                    exc_type=type(e).__name__)
     finally:
         drift = pin.restore_globals(snap)
     if drift and out.status == "ok" and not getattr(mod, "OWNS_GLOBALS", False):
